@@ -44,13 +44,18 @@ pub struct Expected {
     pub free: usize,
     pub exempt: usize,
     pub detail: Vec<String>,
+    /// pairs involving a file mesh whose decision margin is below 5 mm
+    pub shallow: BTreeSet<(usize, usize)>,
 }
 
 pub fn expected(scene: &Scene, b: &Built, j: &[f64; 6], table: &SafetySpec) -> Expected {
-    let mut e = Expected { decided: BTreeSet::new(), undecided: BTreeSet::new(), free: 0, exempt: 0, detail: vec![] };
+    let mut e = Expected { decided: BTreeSet::new(), undecided: BTreeSet::new(), free: 0, exempt: 0, detail: vec![], shallow: BTreeSet::new() };
     for pair in relevant_pairs(b) {
         let info = decide_pair(scene, b, j, pair, table, GUARD);
-        e.detail.push(format!("{} d={:.6} r={} -> {:?}", pair_name(&(info.a, info.b)), info.dist, info.limit, info.verdict));
+        e.detail.push(format!("{} d={:.6} r={} -> {:?}{}", pair_name(&(info.a, info.b)), info.dist, info.limit, info.verdict, if info.shallow { " (margin < 5 mm, file mesh)" } else { "" }));
+        if info.shallow {
+            e.shallow.insert((info.a, info.b));
+        }
         match info.verdict {
             PairVerdict::Collides => {
                 e.decided.insert((info.a, info.b));
@@ -81,47 +86,48 @@ fn norm_pairs(v: &[(usize, usize)]) -> BTreeSet<(usize, usize)> {
 }
 
 /// Compare one report with the expectation under `mode` (0 first, 1 all, 2 none).
-pub fn check_report(what: &str, mode: u8, report: &[(usize, usize)], e: &Expected) -> Res {
+pub fn check_report(what: &str, mode: u8, report: &[(usize, usize)], e: &Expected, ctx: &mut Ctx) -> Res {
+    // Known finding C10-fine-mesh-f32: between fine file meshes the f32 engine behind the library misjudges contacts by up to a few mm;
+    // a disagreement on a pair whose decision margin is below 5 mm and that involves a file mesh is counted, not reported.
+    macro_rules! fail {
+        ($pair:expr, $clause:expr, $($arg:tt)*) => {{
+            let v = Violation { clause: $clause.to_string(), detail: format!($($arg)*) };
+            if e.shallow.contains($pair) {
+                ctx.known_or("C10-fine-mesh-f32", v)?;
+            } else {
+                return Err(v);
+            }
+        }};
+    }
     let rep = norm_pairs(report);
     let show = |s: &BTreeSet<(usize, usize)>| s.iter().map(pair_name).collect::<Vec<_>>().join(" ");
     match mode % 3 {
         2 => ensure!(rep.is_empty(), "nothing is reported in no-check mode", "{}: reported {}", what, show(&rep)),
         1 => {
             for p in &e.decided {
-                ensure!(
-                    rep.contains(p),
-                    "the detailed report lists every relevant pair that intersects or is closer than its safety distance",
-                    "{}: pair {} is missing from the report [{}]; oracle: {}",
-                    what,
-                    pair_name(p),
-                    show(&rep),
-                    e.detail.join("; ")
-                );
+                if !rep.contains(p) {
+                    fail!(p, "the detailed report lists every relevant pair that intersects or is closer than its safety distance", "{}: pair {} is missing from the report [{}]; oracle: {}", what, pair_name(p), show(&rep), e.detail.join("; "));
+                }
             }
             for p in &rep {
-                ensure!(
-                    e.decided.contains(p) || e.undecided.contains(p),
-                    "the detailed report lists only relevant, non-exempt pairs that intersect or are closer than their safety distance",
-                    "{}: pair {} is reported but the oracle says otherwise; oracle: {}",
-                    what,
-                    pair_name(p),
-                    e.detail.join("; ")
-                );
+                if !(e.decided.contains(p) || e.undecided.contains(p)) {
+                    fail!(p, "the detailed report lists only relevant, non-exempt pairs that intersect or are closer than their safety distance", "{}: pair {} is reported but the oracle says otherwise; oracle: {}", what, pair_name(p), e.detail.join("; "));
+                }
             }
         }
         _ => {
             for p in &rep {
-                ensure!(
-                    e.decided.contains(p) || e.undecided.contains(p),
-                    "first-collision mode reports a subset of the colliding pairs",
-                    "{}: pair {} is reported but the oracle says otherwise; oracle: {}",
-                    what,
-                    pair_name(p),
-                    e.detail.join("; ")
-                );
+                if !(e.decided.contains(p) || e.undecided.contains(p)) {
+                    fail!(p, "first-collision mode reports a subset of the colliding pairs", "{}: pair {} is reported but the oracle says otherwise; oracle: {}", what, pair_name(p), e.detail.join("; "));
+                }
             }
-            if !e.decided.is_empty() {
-                ensure!(!rep.is_empty(), "first-collision mode reports at least one of the colliding pairs", "{}: empty report, oracle: {}", what, e.detail.join("; "));
+            if rep.is_empty() {
+                // some decided pair with a comfortable margin must have been found
+                if let Some(p) = e.decided.iter().find(|p| !e.shallow.contains(p)) {
+                    fail!(p, "first-collision mode reports at least one of the colliding pairs", "{}: empty report, oracle: {}", what, e.detail.join("; "));
+                } else if let Some(p) = e.decided.iter().next() {
+                    fail!(p, "first-collision mode reports at least one of the colliding pairs", "{}: empty report, oracle: {}", what, e.detail.join("; "));
+                }
             }
         }
     }
@@ -205,16 +211,25 @@ impl Property for C10 {
             for (threads, repeats) in [(1usize, 1usize), (2, 2), (4, 2), (16, 3)] {
                 for _ in 0..repeats {
                     let det = in_pool(threads, || no_panic(|| robot.collision_details(q))).map_err(|m| viol!("no panic", "collision_details: {}", m))?;
-                    check_report(&format!("{} collision_details [{} threads]", what, threads), mode, &det, &e)?;
+                    check_report(&format!("{} collision_details [{} threads]", what, threads), mode, &det, &e, ctx)?;
                     let col = in_pool(threads, || no_panic(|| robot.collides(q))).map_err(|m| viol!("no panic", "collides: {}", m))?;
                     if mode == 2 {
                         ensure!(!col, "no-check mode never reports a collision", "{}: collides() = true", what);
                     } else {
-                        if !e.decided.is_empty() {
-                            ensure!(col, "a joint vector is reported colliding when some relevant pair is closer than its safety distance", "{} [{} threads]: collides() = false; oracle: {}", what, threads, e.detail.join("; "));
+                        let firm = e.decided.iter().any(|p| !e.shallow.contains(p));
+                        if !e.decided.is_empty() && !col {
+                            let v = viol!("a joint vector is reported colliding when some relevant pair is closer than its safety distance", "{} [{} threads]: collides() = false; oracle: {}", what, threads, e.detail.join("; "));
+                            if firm {
+                                return Err(v);
+                            }
+                            ctx.known_or("C10-fine-mesh-f32", v)?;
                         }
-                        if e.decided.is_empty() && e.undecided.is_empty() {
-                            ensure!(!col, "a joint vector is reported colliding only when some relevant pair is closer than its safety distance", "{} [{} threads]: collides() = true; oracle: {}", what, threads, e.detail.join("; "));
+                        if e.decided.is_empty() && e.undecided.is_empty() && col {
+                            let v = viol!("a joint vector is reported colliding only when some relevant pair is closer than its safety distance", "{} [{} threads]: collides() = true; oracle: {}", what, threads, e.detail.join("; "));
+                            if e.shallow.is_empty() {
+                                return Err(v);
+                            }
+                            ctx.known_or("C10-fine-mesh-f32", v)?;
                         }
                     }
                     let rep = norm_pairs(&det);
@@ -239,7 +254,7 @@ impl Property for C10 {
             let ea = expected(&c.scene, &built, q, &c.alt);
             let alt = c.alt.build();
             let near = in_pool(4, || no_panic(|| robot.near(q, &alt))).map_err(|m| viol!("no panic", "near: {}", m))?;
-            check_report(&format!("{} near(alternative table)", what), c.alt.mode % 3, &near, &ea)?;
+            check_report(&format!("{} near(alternative table)", what), c.alt.mode % 3, &near, &ea, ctx)?;
 
             if !e.decided.is_empty() && e.free > 0 {
                 ctx.nontrivial();
